@@ -552,8 +552,11 @@ impl MWorld {
             o.first_created = Some(m.created);
         }
         if let Some(d) = bad {
-            let p = if profile == "C04" || profile == "C03" { profile.as_str() } else { "C01" };
-            self.violate(p, "exclusive_handout", d);
+            // judged by the properties that state it: C01 (one holder at a time, only pooled
+            // objects), C03 / C04 (an abandoned or rejected object is never handed out)
+            if matches!(profile.as_str(), "C01" | "C03" | "C04") {
+                self.violate(&profile, "exclusive_handout", d);
+            }
         }
         if profile == "C13" {
             crate::moracle::c13_on_handout(self, id, m, prev_reported, h);
